@@ -73,6 +73,19 @@ def judge_reject_size(ctx, case):
     import btc_hd_wallet.bip39 as b39
     from btc_hd_wallet.base_wallet import BaseWallet
     hx = case["hex"]
+    # read-only looking questions about this (illegal) size first - how long would its checksum / its sentence be? - must
+    # not teach the module that the size is legal
+    try:
+        nbits = 4 * len("".join(hx.split()))
+        qs = [lambda: b39.checksum_length(nbits), lambda: b39.mnemonic_sentence_length(nbits), lambda: b39.checksum_length(entropy_bits=nbits),
+              lambda: b39.correct_entropy_bits_value(entropy_bits=nbits)]
+        for q in (qs if nbits & 8 else qs[::-1]):
+            try:
+                q()
+            except Exception:  # noqa
+                pass
+    except Exception:  # noqa
+        pass
     # (the refusal must be stable: asked again straight away - a retry - it is refused again)
     if case.get("via") == "wallet":
         ok, got, outcome = refused(lambda: BaseWallet.from_entropy_hex(entropy_hex=hx).mnemonic)
